@@ -14,6 +14,8 @@ import time
 
 ROOT = os.path.dirname(os.path.dirname(os.path.abspath(__file__)))
 VENV_PY = os.path.join(ROOT, ".venv", "bin", "python")
+if not os.path.exists(VENV_PY):  # running from a snapshot / worktree of /verif: the overlay env lives in /verif
+    VENV_PY = "/verif/.venv/bin/python"
 NATIVE_PY = "/venv/bin/python"
 WORK = os.path.join(ROOT, ".work")
 NPROC = int(os.environ.get("VERIF_JOBS", "16"))
